@@ -409,6 +409,9 @@ func objectDefineOwnProperty(obj *object, name string, descriptor property, thro
 	value1 := descriptor.value
 	if value1 == nil {
 		value1 = prop.value
+		if !isDataDescriptor && descriptor.isDataDescriptor() {
+			value1 = Value{} // accessor converted to a data property without a value (8.12.9 step 9.b)
+		}
 	} else if newGetSet, isAccessor := descriptor.value.(propertyGetSet); isAccessor {
 		if newGetSet[0] == &nilGetSetObject {
 			newGetSet[0] = nil
